@@ -1,9 +1,9 @@
 SPECIFICATION Spec
 CONSTANTS
   NameOrd <- MCNameOrd
-  Universe <- U_q1
-  ValOpts <- V_q1
-  RegOpts <- R_q1
+  Universe <- U_q1c
+  ValOpts <- V_q1c
+  RegOpts <- R_q1c
   MaxLoads = 3
   RegPhases = {0, 1}
   WithBad = FALSE
